@@ -527,7 +527,21 @@ def r3(ctx, chk):
     t_ = " ".join(ast.unparse(rp.node).split())
     import re as _re
     m_ = _re.search(r"for (\w+) in self\._get_settings_from_pyfile\(\)(?:\.keys\(\))?: (\w+)\.setdefault\(\1, getattr\(self, \1\)\)", t_)
-    ok = bool(m_) and _re.search(r"return (?:self\.__class__|type\(self\)|Settings)\(settings=%s\)" % (m_.group(2) if m_ else "x"), t_) is not None
+    if not m_ and "_get_settings_from_pyfile" in t_:
+        chk.error(rule + "d", "Settings.replace: the defaults are merged in a form this rule cannot read")
+        return
+    ok = False
+    if m_:
+        # the completed dict is what the new Settings is built from: return <this class>(settings=<dict>), the class possibly via a local
+        for r_ in [n for n in iter_own_nodes(rp.node) if isinstance(n, ast.Return) and isinstance(n.value, ast.Call)]:
+            fn_ = r_.value.func
+            if isinstance(fn_, ast.Name):
+                ds_ = [n.value for n in iter_own_nodes(rp.node) if isinstance(n, ast.Assign) and len(n.targets) == 1
+                       and isinstance(n.targets[0], ast.Name) and n.targets[0].id == fn_.id]
+                fn_ = ds_[0] if len(ds_) == 1 else fn_
+            kw_ = {k.arg: ast.unparse(k.value) for k in r_.value.keywords}
+            if ast.unparse(fn_) in ("self.__class__", "type(self)", "Settings") and kw_.get("settings") == m_.group(2) and not r_.value.args:
+                ok = True
     chk.ob(rule + "d", "replace() completes the dict with every default key before it is hashed", ok,
            "partial dicts would hash differently from equal complete ones (or equal for different effective settings)",
            key={"function": rp.key, "construct": "replace fills defaults"}, file=rp.file, function=rp.qual, line=rp.node.lineno)
@@ -757,8 +771,30 @@ def r10(ctx, chk):
     sa_ = sets[0]
     v = sa_.args[2]
     covered = set()
+
+    def _types_of(t):
+        """the container kinds an isinstance(<x>, types) test (or a local bound once to one) selects, with <x>; else (None, None)"""
+        if isinstance(t, ast.Name):
+            ds = [n.value for n in iter_own_nodes(upd.node) if isinstance(n, ast.Assign) and len(n.targets) == 1 and isinstance(n.targets[0], ast.Name)
+                  and n.targets[0].id == t.id]
+            t = ds[0] if len(ds) == 1 else t
+        if not (isinstance(t, ast.Call) and ast.unparse(t.func) == "isinstance" and len(t.args) == 2):
+            return None, None
+        tys = t.args[1].elts if isinstance(t.args[1], ast.Tuple) else [t.args[1]]
+        names = {ast.unparse(x).split(".")[-1] for x in tys}
+        kinds = set()
+        if names & {"list", "MutableSequence", "Sequence"}:
+            kinds.add("list")
+        if names & {"dict", "Mapping", "MutableMapping"}:
+            kinds.add("dict")
+        return ast.unparse(t.args[0]), kinds
     if _copy_of(v):
         covered = {"list", "dict"}
+    elif isinstance(v, ast.IfExp) and isinstance(v.orelse, ast.Name):
+        # setattr(self, key, copy(value) if <value is a container> else value)
+        subj, kinds = _types_of(v.test)
+        if subj == v.orelse.id and _copy_of(v.body, v.orelse.id):
+            covered = set(kinds)
     elif isinstance(v, ast.Name):
         from ..core.ctx import enclosing_tests
         set_stmt = _stmt_of(upd.node, sa_)
